@@ -102,7 +102,7 @@ def run(ctx):
         txt = open(os.path.join(tlc.SPEC, 'MCAsync_quick.cfg')).read().replace('AsyncDevs = {}', 'AsyncDevs <- ' + dev)
         p = os.path.join(ctx.work, dev + '.cfg')
         open(p, 'w').write(txt)
-        r = tlc.run('MCAsync', p, ctx.work, workers=8, timeout=600, outname=dev + '.out')
+        r = tlc.run('MCAsync', p, ctx.work, workers=8, timeout=600, outname=dev + '.out', only=want)
         if r['violated'] != want:
             raise tlc.TLCError('AsyncExpect with %s should violate %s, got %s' % (dev, want, r['violated']))
         sens[dev] = want
